@@ -52,11 +52,20 @@ def documents(pm: ProgramModel, mb: ModelBuilder) -> dict[str, list[tuple[str, A
     docs["AFMReader"].append(("third-party/negations",
                               "%Relationships\nR: [A] [B] [C];\n%Attributes\n%Constraints\nNOT A OR B;\n"
                               "NOT (B AND C);\nA IFF (NOT C);\n", mm))
+    from ..codec import ctc_model, operator_trees
+    from ..logic import BINARY_LOGICAL
     m = rich_model(mb)
     m._f["ctcs"] = [c for c in m._f["ctcs"] if c._f["name"] != "arith"]
     docs["JSONReader"].append(("written/rich", written("JSONWriter", m), m))
+    allops = [t for op in BINARY_LOGICAL for t in operator_trees(mb, op)[:4]]
+    m = ctc_model(mb, allops)
+    docs["JSONReader"].append(("written/all-operators", written("JSONWriter", m), m))
     m = c08.glencoe_rich(mb)
     docs["GlencoeReader"].append(("written/rich", written("GlencoeWriter", m), m))
+    m = ctc_model(mb, [t for op in BINARY_LOGICAL for t in operator_trees(mb, op)[:4]])
+    docs["GlencoeReader"].append(("written/all-operators", written("GlencoeWriter", m), None))
+    m = ctc_model(mb, [t for op in BINARY_LOGICAL if op != "XOR" for t in operator_trees(mb, op)[:4]])
+    docs["FeatureIDEReader"].append(("written/all-operators", written("FeatureIDEWriter", m), None))
     ref9 = c09.ref_model(mb)
     docs["GlencoeReader"].append(("third-party/ids", json.dumps(c09.glencoe_doc(ref9)), ref9))
     m = c07.fide_rich(mb)
